@@ -322,6 +322,11 @@ def check_reads(store, model, universe, last_op=None, fresh_store_keys=(), stric
                         if md.get(f) != v:
                             bad("get_metadata", k, "user_field_differs", "%s: want %r got %r" % (f, v, md.get(f)))
                             break
+                    # fields of an earlier metadata record that the latest one no longer has are gone ("the caller's metadata
+                    # fields are read back": a metadata write replaces the record)
+                    stale = [f for f in md if f.startswith("x_") and f not in um]
+                    if stale:
+                        bad("get_metadata", k, "field_of_a_replaced_record_still_there", "%r (current record has %r)" % (stale[:3], sorted(um)[:5]))
                     if md.get("key") != k:
                         bad("get_metadata", k, "key_field_wrong", repr(md.get("key")))
                     fi = md.get("fileinfo") or {}
